@@ -1080,6 +1080,20 @@ fn prop_map(t: &mut Tape, st: &mut Stats) -> Result<(), Failure> {
         let want: Vec<(String, Option<i64>)> = m.iter().map(|(k, v)| (k.clone(), Some(*v))).collect();
         let printed_pairs = printed(&a.to_string());
         let want_printed = format!("{want:?}");
+        // the iterators are double-ended and exact-sized: walked from the back they give the same
+        // entries in the opposite order
+        let mut want_rev = want.clone();
+        want_rev.reverse();
+        let it_rev: Vec<(String, Option<i64>)> = a.iter().rev().map(|(k, v)| (k.clone(), v.as_integer())).collect();
+        let keys_rev: Vec<String> = a.keys().rev().cloned().collect();
+        let vals_rev: Vec<Option<i64>> = a.values().rev().map(|v| v.as_integer()).collect();
+        let into_rev: Vec<(String, Option<i64>)> = a.clone().into_iter().rev().map(|(k, v)| (k, v.as_integer())).collect();
+        let last = a.iter().next_back().map(|(k, v)| (k.clone(), v.as_integer()));
+        let mut ac = a.clone();
+        let last_mut = ac.iter_mut().next_back().map(|(k, v)| (k.clone(), v.as_integer()));
+        if it_rev != want_rev || into_rev != want_rev || keys_rev != want_rev.iter().map(|e| e.0.clone()).collect::<Vec<_>>() || vals_rev != want_rev.iter().map(|e| e.1).collect::<Vec<_>>() || last != want.last().cloned() || last_mut != want.last().cloned() || a.iter().len() != m.len() {
+            return Err(Failure::new("state", format!("[toml::Map po={po}] after {log:?}: walked from the back the iterators give iter {it_rev:?} keys {keys_rev:?} values {vals_rev:?} into_iter {into_rev:?} next_back {last:?}; reference {want_rev:?}"), case()));
+        }
         if it != want || into != want || keys != want.iter().map(|e| e.0.clone()).collect::<Vec<_>>() || vals != want.iter().map(|e| e.1).collect::<Vec<_>>() || a.len() != m.len() || a.is_empty() != m.is_empty() || printed_pairs != want_printed {
             return Err(Failure::new("state", format!("[toml::Map po={po}] after {log:?}: iter {it:?} printed {printed_pairs}; reference {want:?}"), case()));
         }
